@@ -5,11 +5,20 @@
   sum), rejection of an even window, the double loop with window index `i - j + D`, skipping of
   out-of-track and NaN samples, division by the collected norm, boundary copy when the kernel does
   not filter boundaries;
-* `Kernel.evaluate` / `Kernel.toSlidingWindow` and the kernel functions of `UniformKernel`,
-  `TriangularKernel`, `EpanechnikovKernel` (tracklib/core/kernel.py); the other kernel functions
-  (`math.exp`, `math.pow`) are a function parameter;
-* `filter_seq` (tracklib/algo/filtering.py) writing x/y/z through the feature `temp`, and
-  `Track.smooth`.
+* `Kernel.evaluate` / `Kernel.toSlidingWindow` (a sampled function whose values sum to 0 makes the
+  normalisation divide by zero) and the kernel functions of `UniformKernel`, `TriangularKernel`,
+  `EpanechnikovKernel` (tracklib/core/kernel.py); a user-defined kernel (`Kernel` + `setFunction`)
+  given by a table of values at the integers (`tableF`); the other kernel functions (`math.exp`,
+  `math.pow`) are a function parameter;
+* `Track.operate(Operator.FILTER, af_in, kernel, af_out)` on a track seen as named signals
+  (`operate`): a kernel given as the name of a feature, the order of the failures (kernel
+  preparation, even window, reserved output name, empty track, unknown input feature), the
+  creation of the output feature;
+* `filter_seq` (tracklib/algo/filtering.py): integer kernel, one-element list, the dispatch on `dim`
+  (default argument / module constant `FILTER_…` / list / a single `str` walked character by
+  character; coordinates written through the feature `temp`, other names filtered in place), and
+  `Track.smooth`; the module-level state a call can read (`Globals`) is threaded through a
+  `session` of calls.
 
 Scalars are polymorphic (`Rat` and `Float` in the driver, an ordered field in the theorems);
 NaN is `none`. A signal is a `List (Option α)`. Core Lean only. -/
@@ -20,7 +29,9 @@ inductive Err where
   | zeroDiv      -- `temp[i] /= norm` with a collected norm equal to 0
   | index        -- boundary copy on a track shorter than the half window
   | support      -- `toSlidingWindow` with support < 1
-  | feature      -- unknown analytical feature
+  | feature      -- unknown analytical feature, or a reserved name (x, y, z, t, timestamp, idx) as output feature
+  | emptyTrack   -- `createAnalyticalFeature` on a track without observation (AnalyticalFeatureError)
+  | nanKernel    -- a kernel given as a feature name whose values contain NaN (every weight becomes NaN): not modelled
   deriving DecidableEq, Repr
 
 section core
@@ -55,21 +66,38 @@ def copyBoundary (v temp : List (Option α)) (D : Nat) : List (Option α) :=
   (List.range v.length).map (fun i =>
     if i < D ∨ v.length - D ≤ i then (v[i]?).join else (temp[i]?).join)
 
+/-- is a sample read for output index `i` at some kernel position (inside the track and not NaN)?
+When none is, `temp[i]` and `norm` are still the Python ints `0` at `temp[i] /= norm`. -/
+def anySample (v : List (Option α)) (D i : Nat) : List α → Nat → Bool
+  | [], _ => false
+  | _ :: ks, j => (sample v D i j).isSome || anySample v D i ks (j + 1)
+
 /-- `Filter.execute` after kernel preparation: `k` is the window actually used,
-`boundary = kernel.filterBoundary()` (False for a weight list). -/
-def filterWindow [BEq α] (v : List (Option α)) (k : List α) (boundary : Bool) :
+`boundary = kernel.filterBoundary()` (False for a weight list), `np` tells that the weights are numpy
+scalars (a weight list after `kernel[i] /= np.sum(np.array(kernel))`) and not Python floats (the
+sliding window of a Kernel object, `[0,1,0]`).
+
+`temp[i] /= norm` with a collected norm equal to 0: with Python numbers a `ZeroDivisionError`
+(`0.0 / 0.0` for a Kernel object, `0 / 0` on the untouched ints when no sample was read); with
+numpy weights and at least one sample read, `np.float64(0.0) / np.float64(0.0)` is `nan` with a
+warning, and the loop goes on. -/
+def filterWindowG [BEq α] (v : List (Option α)) (k : List α) (boundary np : Bool) :
     Except Err (List (Option α)) :=
   let N := k.length
   if N % 2 == 0 then .error .evenKernel
   else
     let D := N / 2
     let cs := cells v k D
-    if cs.any (fun c => c.2 == 0) then .error .zeroDiv
+    if cs.zipIdx.any (fun c => c.1.2 == 0 && (!np || !anySample v D c.2 k 0)) then .error .zeroDiv
     else
-      let temp : List (Option α) := cs.map (fun c => some (c.1 / c.2))
+      let temp : List (Option α) := cs.map (fun c => if c.2 == 0 then none else some (c.1 / c.2))
       if boundary then .ok temp
       else if v.length < D then .error .index
       else .ok (copyBoundary v temp D)
+
+/-- `Filter.execute` after kernel preparation with Python-float weights (Kernel object, Dirac) -/
+def filterWindow [BEq α] (v : List (Option α)) (k : List α) (boundary : Bool) :
+    Except Err (List (Option α)) := filterWindowG v k boundary false
 
 /-- `norm = np.sum(np.array(kernel)); kernel[i] /= norm` -/
 def normalise (k : List α) : List α :=
@@ -94,14 +122,26 @@ def evaluate (f : α → α) (support x : α) : α := f x * ind (absv x ≤ supp
 def samplePoint (size i : Nat) : α :=
   (size : α) / ((2 : Nat) : α) - (i : α) - (1 : α) / ((2 : Nat) : α)
 
-/-- `Kernel.toSlidingWindow()`; `S = int(self.support)`. -/
-def slidingWindow (f : α → α) (support : α) (S : Nat) : Except Err (List α) :=
+/-- `Kernel.toSlidingWindow()`; `S = int(self.support)`. `evaluate` returns a Python float whatever the
+kernel function returns (int, float, numpy scalar), so `values[i] /= norm` with `norm == 0` is a
+`ZeroDivisionError`. -/
+def slidingWindow [BEq α] (f : α → α) (support : α) (S : Nat) : Except Err (List α) :=
   if support < 1 then .error .support
   else
     let size := 2 * S + 1
     let values := (List.range size).map (fun i => evaluate f support (samplePoint size i))
     let norm := values.foldl (· + ·) 0
-    .ok (values.map (· / norm))
+    if norm == 0 then .error .zeroDiv
+    else .ok (values.map (· / norm))
+
+/-- `tbl[j - j0]` for the first position `j ≥ j0` with `j == a`, else `0` -/
+def tableFrom [BEq α] (a : α) : List α → Nat → α
+  | [], _ => 0
+  | y :: ys, j => if ((j : Nat) : α) == a then y else tableFrom a ys (j + 1)
+
+/-- a user-defined kernel function (`Kernel(...)` + `setFunction`) given by its values at
+`|x| = 0, 1, 2, …`: `f(x) = tbl[|x|]` when `|x|` is one of these integers, else `0`. -/
+def tableF [BEq α] (tbl : List α) (x : α) : α := tableFrom (absv x) tbl 0
 
 /-- `UniformKernel(size)`: `f = lambda x: 1 * (abs(x) <= size) / (2 * size)`, support `2 * size` -/
 def uniformF (size x : α) : α := (1 * ind (absv x ≤ size)) / (((2 : Nat) : α) * size)
@@ -127,31 +167,36 @@ inductive KArg (α : Type) where
   support, `int(support)` -/
   | obj (dirac : Bool) (boundary : Bool) (f : α → α) (support : α) (S : Nat)
 
-/-- `Filter.execute(track, af_input, kernel, af_output)`: returns the caller's weight list as it is
-left by the call (lists are normalised in place) and the output feature. -/
-def execute [BEq α] (v : List (Option α)) : KArg α → Except Err (Option (List α) × List (Option α))
+/-- kernel preparation of `Filter.execute` for a list or a Kernel object: the caller's weight list as it
+is left by the call (lists are normalised in place; `None` for a Kernel object), the window used, the
+boundary flag, and whether the weights are numpy scalars. -/
+def prepare [BEq α] : KArg α → Except Err (Option (List α) × List α × Bool × Bool)
   | .obj dirac boundary f support S =>
-    if dirac then
-      match filterWindow v [0, 1, 0] boundary with
-      | .ok out => .ok (none, out)
-      | .error e => .error e
+    if dirac then .ok (none, [0, 1, 0], boundary, false)
     else
       match slidingWindow f support S with
       | .error e => .error e
-      | .ok w =>
-        match filterWindow v w boundary with
-        | .ok out => .ok (none, out)
-        | .error e => .error e
+      | .ok w => .ok (none, w, boundary, false)
   | .list k =>
     let k' := normalise k
-    match filterWindow v k' false with
-    | .ok out => .ok (some k', out)
+    .ok (some k', k', false, true)
+
+/-- `Filter.execute(track, af_input, kernel, af_output)` on the values `v` of the input feature:
+returns the caller's weight list as it is left by the call and the output feature. -/
+def execute [BEq α] (v : List (Option α)) (kern : KArg α) : Except Err (Option (List α) × List (Option α)) :=
+  match prepare kern with
+  | .error e => .error e
+  | .ok (k', w, boundary, np) =>
+    match filterWindowG v w boundary np with
+    | .ok out => .ok (k', out)
     | .error e => .error e
 
 /-- the `kernel` argument of `filter_seq` -/
 inductive SeqArg (α : Type) where
   | int (n : Int)
   | k (a : KArg α)
+  /-- a `str`: `Filter.execute` takes the values of that feature (or coordinate) of the track as weights -/
+  | feat (name : String)
 
 /-- a track seen by `filter_seq`: named signals (`x`, `y`, `z`, then the analytical features) -/
 abbrev Sigs (α : Type) := List (String × List (Option α))
@@ -166,38 +211,160 @@ def setSig (t : Sigs α) (name : String) (s : List (Option α)) : Sigs α :=
   if t.any (·.1 == name) then t.map (fun p => if p.1 == name then (name, s) else p)
   else t ++ [(name, s)]
 
+/-- `track.size()`: the number of values of the coordinate `x` -/
+def trackSize (t : Sigs α) : Nat :=
+  match getSig t "x" with
+  | some v => v.length
+  | none => 0
+
+/-- `Track.__controlName`: names that cannot be created as analytical features -/
+def reservedName (n : String) : Bool :=
+  n == "x" || n == "y" || n == "z" || n == "t" || n == "timestamp" || n == "idx"
+
+/-- `track.createAnalyticalFeature(name)` once the name and the track size are accepted: a no-op on an
+existing feature, else a new feature of `0.0` -/
+def createAF (t : Sigs α) (name : String) : Sigs α :=
+  if t.any (·.1 == name) then t else t ++ [(name, List.replicate (trackSize t) (some 0))]
+
 /-- the Python object bound to `kernel` after a call: a weight list has been normalised in place -/
 def nextKernel (kern : KArg α) : Option (List α) → KArg α
   | some l => .list l
   | none => kern
 
+/-- what `kernel` is in `Filter.execute`: a list / Kernel object, or the name of a feature -/
+inductive KSrc (α : Type) where
+  | arg (a : KArg α)
+  | feat (name : String)
+
+/-- `if isinstance(kernel, str): kernel = track.getAnalyticalFeature(kernel)` (a fresh list: the
+feature itself is not normalised) -/
+def resolve (t : Sigs α) : KSrc α → Except Err (KArg α)
+  | .arg a => .ok a
+  | .feat name =>
+    match getSig t name with
+    | none => .error .feature
+    | some w => if w.any (·.isNone) then .error .nanKernel else .ok (.list (w.filterMap id))
+
+/-- the object bound to the caller's `kernel` after the call (a `str` is immutable) -/
+def nextSrc (kern : KSrc α) (k' : Option (List α)) : KSrc α :=
+  match kern with
+  | .arg a => .arg (nextKernel a k')
+  | .feat n => .feat n
+
+/-- `track.operate(Operator.FILTER, af_in, kernel, af_out)` (`ScalarVoidOperator` with a `str` first
+argument, i.e. `Filter.execute(track, af_in, kernel, af_out)`), in the order of the Python: kernel
+preparation, odd-window test, `createAnalyticalFeature(af_out)` (reserved name, empty track; a new
+feature is created with zeros *before* the input is read), the filtering loops, `addListToAF`.
+Returns the caller's kernel after the call, the output values and the track. -/
+def operate [BEq α] (t : Sigs α) (afIn : String) (kern : KSrc α) (afOut : String) :
+    Except Err (KSrc α × List (Option α) × Sigs α) :=
+  match resolve t kern with
+  | .error e => .error e
+  | .ok ka =>
+    match prepare ka with
+    | .error e => .error e
+    | .ok (k', w, boundary, np) =>
+      if w.length % 2 == 0 then .error .evenKernel
+      else if reservedName afOut then .error .feature
+      else if trackSize t == 0 then .error .emptyTrack
+      else
+        let t1 := createAF t afOut
+        match getSig t1 afIn with
+        | none => .error .feature
+        | some v =>
+          match filterWindowG v w boundary np with
+          | .error e => .error e
+          | .ok out => .ok (nextSrc kern k', out, setSig t1 afOut out)
+
 /-- the loop `for af in dim` of `filter_seq`; the weight list, if any, is the same Python object
-for every dimension, so it is re-normalised at each call. -/
-def seqLoop [BEq α] : List String → KArg α → Sigs α → Except Err (Sigs α)
+for every dimension, so it is re-normalised at each call. A coordinate is filtered into the feature
+`temp` and copied back (`setXFromAnalyticalFeature`), any other name is filtered in place. -/
+def seqLoop [BEq α] : List String → KSrc α → Sigs α → Except Err (Sigs α)
   | [], _, t => .ok t
   | af :: rest, kern, t =>
-    match getSig t af with
-    | none => .error .feature
-    | some v =>
-      match execute v kern with
+    if af == "x" ∨ af == "y" ∨ af == "z" then
+      match operate t af kern "temp" with
       | .error e => .error e
-      | .ok (k', out) =>
-        let kern' := nextKernel kern k'
-        if af == "x" ∨ af == "y" ∨ af == "z" then
-          -- track.operate(FILTER, af, kernel, "temp"); track.set?FromAnalyticalFeature("temp")
-          seqLoop rest kern' (setSig (setSig t "temp" out) af out)
-        else
-          seqLoop rest kern' (setSig t af out)
+      | .ok (kern', out, t') => seqLoop rest kern' (setSig t' af out)
+    else
+      match operate t af kern af with
+      | .error e => .error e
+      | .ok (kern', _, t') => seqLoop rest kern' t'
 
-/-- `filter_seq(track, kernel, dim)`: an int `n` stands for `[1]*n`, a one-element list returns the
-track unchanged. -/
+/-- `filter_seq(track, kernel, dim)` once `dim` is a list of names: an int `n` stands for `[1]*n`, a
+one-element list returns the track unchanged. -/
 def filterSeq [BEq α] (t : Sigs α) (kernel : SeqArg α) (dim : List String) : Except Err (Sigs α) :=
-  let kern : KArg α := match kernel with
-    | .int n => .list (List.replicate n.toNat 1)
-    | .k a => a
+  let kern : KSrc α := match kernel with
+    | .int n => .arg (.list (List.replicate n.toNat 1))
+    | .k a => .arg a
+    | .feat n => .feat n
   match kern with
-  | .list [_] => .ok t
+  | .arg (.list [_]) => .ok t
   | _ => seqLoop dim kern t
+
+/-! ### the `dim` argument, module-level state, sessions of calls -/
+
+/-- the module-level state a call of `filter_seq` / `Track.smooth` reads: the constants
+`FILTER_X … FILTER_XYZ` of `tracklib/algo/filtering.py` (Python lists, `FILTER_XYZ` being the default
+value of `dim`) and the class attribute `Kernel.__filter_boundary` (what `filterBoundary()` returns
+for a kernel on which `setFilterBoundary` was never called). -/
+structure Globals where
+  filterConsts : List (String × List String)
+  kernelFilterBoundary : Bool
+  deriving DecidableEq, Repr
+
+/-- the state of a fresh process -/
+def Globals.initial : Globals :=
+  ⟨[("FILTER_X", ["x"]), ("FILTER_Y", ["y"]), ("FILTER_Z", ["z"]), ("FILTER_XY", ["x", "y"]),
+    ("FILTER_XZ", ["x", "z"]), ("FILTER_YZ", ["y", "z"]), ("FILTER_XYZ", ["x", "y", "z"])], false⟩
+
+/-- the `dim` argument of `filter_seq` -/
+inductive DimArg where
+  /-- argument omitted: the default value `FILTER_XYZ` -/
+  | default
+  /-- one of the module constants, passed by reference -/
+  | const (name : String)
+  /-- a list of names -/
+  | list (l : List String)
+  /-- a single `str`: `for af in dim` walks its characters -/
+  | str (s : String)
+  deriving DecidableEq, Repr
+
+/-- the names `for af in dim` goes through (`none`: no such module constant) -/
+def dimNames (g : Globals) : DimArg → Option (List String)
+  | .default => (g.filterConsts.find? (·.1 == "FILTER_XYZ")).map (·.2)
+  | .const n => (g.filterConsts.find? (·.1 == n)).map (·.2)
+  | .list l => some l
+  | .str s => some (s.toList.map (fun c => String.singleton c))
+
+/-- one call `filter_seq(track, kernel[, dim])`: the result and the module-level state afterwards
+(no statement of `filter_seq` writes to it). -/
+def filterSeqCall [BEq α] (g : Globals) (t : Sigs α) (kernel : SeqArg α) (dim : DimArg) :
+    Option (Except Err (Sigs α) × Globals) :=
+  match dimNames g dim with
+  | none => none
+  | some names => some (filterSeq t kernel names, g)
+
+/-- `Track.smooth(width)`: `filter_seq(self, GaussianKernel(width))`; `f`, `support = 3·width`,
+`S = int(support)` describe the Gaussian kernel, on which `setFilterBoundary` is never called. -/
+def smooth [BEq α] (g : Globals) (t : Sigs α) (f : α → α) (support : α) (S : Nat) :
+    Option (Except Err (Sigs α) × Globals) :=
+  filterSeqCall g t (.k (.obj false g.kernelFilterBoundary f support S)) .default
+
+/-- one call of a session -/
+structure Call (α : Type) where
+  t : Sigs α
+  kernel : SeqArg α
+  dim : DimArg
+
+/-- calls made one after the other in one process, each on its own track: the results, each with
+the module-level state after the call -/
+def session [BEq α] : Globals → List (Call α) → List (Option (Except Err (Sigs α) × Globals))
+  | _, [] => []
+  | g, c :: cs =>
+    match filterSeqCall g c.t c.kernel c.dim with
+    | none => [none]
+    | some (r, g') => some (r, g') :: session g' cs
 end kernel
 
 end TV.Filter
